@@ -82,6 +82,10 @@ fn make_split(g: &Grammar, rng: &mut Rng, levels: usize) -> Split {
                 flat_part.push('\n');
             }
             subdir |= in_sub;
+            // an include file may start with a byte order mark like any other file
+            if rng.chance(1, 5) {
+                content = format!("\u{feff}{content}");
+            }
             files.push((fname.clone(), content));
             // directive syntax: quoted / unquoted, / or \ separators
             let shown = if rng.chance(1, 3) { fname.replace('/', "\\") } else { fname.clone() };
@@ -93,6 +97,15 @@ fn make_split(g: &Grammar, rng: &mut Rng, levels: usize) -> Split {
             flat.push_str(&flat_part);
             i += n;
         } else {
+            // the same file may be the target of several directives (a shared snippet)
+            if rng.chance(1, 6) {
+                if !files.iter().any(|f| f.0 == "shared/snippet.a2l") {
+                    files.push(("shared/snippet.a2l".to_string(), "/* shared snippet */\n".to_string()));
+                    subdir = true;
+                }
+                main.push_str("/include \"shared/snippet.a2l\"\n");
+                flat.push_str("/* shared snippet */\n");
+            }
             main.push_str(&children[i]);
             main.push('\n');
             flat.push_str(&children[i]);
@@ -156,10 +169,23 @@ pub fn run(args: &Args) -> Report {
             return rep;
         }
     }
+    // include names are resolved relative to the including file, not to the working directory: the process runs inside a
+    // decoy directory that holds files with the same relative names and other content
+    let old_cwd = std::env::current_dir().ok();
+    let out_abs = std::fs::canonicalize(&args.out).unwrap_or_else(|_| PathBuf::from(&args.out));
+    let current = out_abs.join("current.txt").to_string_lossy().into_owned();
+    let decoy = root.join("decoy_cwd");
+    let _ = std::fs::create_dir_all(&decoy);
+    let _ = std::env::set_current_dir(&decoy);
     for i in 0..n {
         let sp = make_split(&g, &mut rng, 1 + i % 3);
         let dir = root.join(format!("c{i}"));
         write_files(&dir, &sp.files);
+        let _ = std::fs::remove_dir_all(&decoy);
+        let _ = std::fs::create_dir_all(&decoy);
+        let _ = std::env::set_current_dir(&decoy);
+        let decoys: Vec<(String, String)> = sp.files.iter().skip(1).map(|(n, _)| (n.clone(), "/begin MEASUREMENT decoy_from_cwd \"\" UBYTE NO_COMPU_METHOD 0 0 0 1 /end MEASUREMENT\n".to_string())).collect();
+        write_files(&decoy, &decoys);
         let input = describe(&sp.files);
         rep.case(&input, sp.files.len() > 1);
         rep.bump(&format!("files:{}", sp.files.len().min(5)));
@@ -248,6 +274,12 @@ pub fn run(args: &Args) -> Report {
             let vp = dir.join(&victim.0);
             let saved = std::fs::read(&vp).unwrap_or_default();
             let _ = std::fs::remove_file(&vp);
+            // (a name that is not found next to the including file is tried as written, i.e. relative to the working
+            //  directory: for "missing" the decoy of that name has to go as well)
+            let _ = std::fs::remove_file(decoy.join(&victim.0));
+            if let Some(inner) = sp.files.iter().find(|f| f.0 != victim.0 && victim.0.ends_with(f.0.rsplit('/').next().unwrap_or(""))) {
+                let _ = inner;
+            }
             match catch(|| a2lfile::load(&main_path, None, false)) {
                 Err(p) => rep.fail("panic", input.clone(), format!("missing include file: {p}")),
                 Ok(Ok(_)) => rep.fail("missing-include-accepted", input.clone(), format!("include file {} is missing but loading succeeds", victim.0)),
@@ -268,6 +300,9 @@ pub fn run(args: &Args) -> Report {
             rep.sample(format!("{} files: {}", sp.files.len(), sp.files.iter().map(|f| f.0.clone()).collect::<Vec<_>>().join(", ")));
         }
         let _ = std::fs::remove_dir_all(&dir);
+    }
+    if let Some(c) = old_cwd {
+        let _ = std::env::set_current_dir(c);
     }
     let _ = std::fs::remove_dir_all(&root);
     let _ = std::fs::remove_file(&current);
